@@ -4,10 +4,10 @@ The step monitors as a whole never alarm on the model.
 `stepMonitors` (Monitors.lean) is what the native driver evaluates on every transition of the
 IMPLEMENTATION explored by suite `mapper`.  Each clause has its own monitor-form theorem in the property
 files; this file puts them together: on every transition of every state of the MODEL reachable by key
-events, the only tag `stepMonitors` can return is the one of C02 clause (d) (open known finding D5,
-absorbing layouts), and for layouts without absorbing mappings it returns nothing at all.  So a tag of
-any other property on an implementation transition always means that the implementation left the
-model there (a violation of that property, not an artefact of the monitor).
+events, for EVERY layout, `stepMonitors` returns no tag at all (`stepMonitors_model_all`) — since the fix
+of finding D5 this includes the tag of C02 clause (d).  So a tag of any property on an implementation
+transition always means that the implementation left the model there (a violation of that property, not
+an artefact of the monitor).
 -/
 import TmVerif.Props.C01
 import TmVerif.Props.C02d
@@ -33,17 +33,20 @@ theorem stepMonitors_model (L : Layout) (x : Sys) (hx : ReachableEv L x) (e : Ev
     List.nil_append, List.append_nil]
   cases monC02dTag (x.obs L e) <;> rfl
 
-/-- layouts without absorbing mappings: no tag at all -/
-theorem stepMonitors_model_noAbs (L : Layout) (hL : NoAbs L) (x : Sys) (hx : ReachableEv L x) (e : Event) :
+/-- every layout: no tag at all -/
+theorem stepMonitors_model_all (L : Layout) (x : Sys) (hx : ReachableEv L x) (e : Event) :
     stepMonitors (x.obs L e) = [] := by
-  rw [stepMonitors_model L x hx e, (C02d_monitor L hL x hx e).2]
+  rw [stepMonitors_model L x hx e, (C02d_monitor L x hx e).2]
 
-/-- every layout: a tag is one of clause (d) of C02 -/
+/-- layouts without absorbing mappings: no tag at all (kept; a special case of `stepMonitors_model_all`) -/
+theorem stepMonitors_model_noAbs (L : Layout) (_hL : NoAbs L) (x : Sys) (hx : ReachableEv L x) (e : Event) :
+    stepMonitors (x.obs L e) = [] :=
+  stepMonitors_model_all L x hx e
+
+/-- every layout: a tag would be one of clause (d) of C02 (kept; vacuous now — there is no tag) -/
 theorem stepMonitors_model_tags (L : Layout) (x : Sys) (hx : ReachableEv L x) (e : Event) (t : String)
     (ht : t ∈ stepMonitors (x.obs L e)) : monC02dTag (x.obs L e) = some t := by
-  rw [stepMonitors_model L x hx e] at ht
-  cases h : monC02dTag (x.obs L e) with
-  | none => simp [h] at ht
-  | some t' => simp [h] at ht; rw [ht]
+  rw [stepMonitors_model_all L x hx e] at ht
+  simp at ht
 
 end TmVerif
